@@ -21,7 +21,7 @@ MAX_STATES = 5000
 
 
 def scope_text(tier):
-    return ('SEL-q' if tier == 'quick' else 'SEL-t') + ' (vf/enumerate.py SCOPES) + CYC family (all edge subsets among 3 nodes x entry choices): all canonical specs, all choice orders, all options'
+    return ('SEL-q' if tier == 'quick' else 'SEL-t') + ' (vf/enumerate.py SCOPES) + CYC family (all edge subsets among 3 nodes x entry choices) + DIAMOND family (reconverging branches of length 1-3): all canonical specs, all choice orders, all options'
 
 
 def cases(tier, seed):
@@ -29,6 +29,8 @@ def cases(tier, seed):
         yield dict(spec=spec)
     from vf import families
     for spec in families.cyc(tier):      # nested / overlapping cycles entered at different depths
+        yield dict(spec=spec)
+    for spec in families.diamond(tier):  # reconverging derivation branches below an option
         yield dict(spec=spec)
 
 
